@@ -190,6 +190,9 @@ def run_case(case):
                     r = target.make_solver(sv, problem, **{**kw, "checkpoint_dir": os.path.join(base, f"r{k}")})
                     target.call(f"load_checkpoint(step={k})", r.load_checkpoint, D, step=k)
                 sig = ckpt.state_sig(sv, r.solver_state)
+                if sig["iteration"] != k and not (f8 is not None and k <= f8):
+                    return dict(status="violation", kind="content",
+                                detail=f"{sv}: retained step {k} restores as iteration {sig['iteration']}")
                 cands = [first_call.get(k), last_call.get(k)]
                 if not any(c is not None and {kk: vv for kk, vv in c.items() if kk != "step"} == sig for c in cands):
                     if f8 is not None and k <= f8:
